@@ -31,7 +31,7 @@ def run(ck, pid, timeout_mix, n_quick, n_thorough, title_rule):
             ck.count("op:" + o.split()[0])
         if any(o.split()[0] in ("shutdown", "expire") for o in ops):
             ck.distinct.add(line)
-        if il.startswith(("PANIC", "CRASH")):
+        if il.startswith(("PANIC", "CRASH", "HANG")):
             bad = "harness: " + il[:200]
         elif "STALE-DEADLINE=" in il:
             bad = ("a service with an idle timeout entered Accept without re-arming the listener's deadline after the previous Accept returned: "
